@@ -67,7 +67,10 @@ def run(ctx):
     cases = []
     nb = ctx.pick(40, 600)
     for k in range(nb):
-        res, tempo, pts = tm.seeded_map(r, max_segments=r.choice([1, 2, 3, 4, 6]), max_total_s=1000)
+        if k % 4 == 3:
+            res, tempo, pts = tm.restated_run_map(r)          # (corruptions right next to markers that restate the tempo in force)
+        else:
+            res, tempo, pts = tm.seeded_map(r, max_segments=r.choice([1, 2, 3, 4, 6]), max_total_s=1000)
         base = tm.chart_case_from_map(r, f"C15-b{k}", res, tempo, pts, dense=(len(pts) < 25))
         cases += corruptions(r, base)
     ctx.extra["corrupted_charts"] = len(cases)
